@@ -273,6 +273,11 @@ func (g *ltGen) when(sub bool) time.Time {
 		ns = r.intn(1_000_000_000)
 	}
 	tm := time.Unix(sec, int64(ns)).UTC()
+	if !g.domain && r.chance(1, 25) {
+		// Go's zero time: what a lap without a recorded date carries
+		g.s.count("lt.time.zero")
+		return time.Time{}
+	}
 	if r.chance(1, 3) {
 		tm = tm.In(time.FixedZone("verif", pick(r, []int{7200, -28800, 19800, 50400, -43200})))
 	}
@@ -393,6 +398,13 @@ func (g *ltGen) coord(lim int) float64 {
 		if !g.domain {
 			v = r.float01() * 1e-9
 		}
+	case 3:
+		// exactly on the 180th meridian / at a pole, and one unit of the 8th decimal inside
+		v = float64(lim)
+		if r.bool() {
+			v = float64(lim) - 1e-8
+		}
+		g.s.count("lt.coord.limit")
 	}
 	if r.chance(1, 2) {
 		v = -v
